@@ -512,11 +512,17 @@ func (c *c14) runAllLost(r *core.R, p c14Params) {
 		os.MkdirAll(dir, 0755)
 		nf := 1 + rng.Intn(3)
 		slice := []int{4, 16, 64}[rng.Intn(3)]
+		if trial%4 == 3 {
+			slice = 2000 // with a file beyond 16 KiB below
+		}
 		var paths []string
 		var datas [][]byte
 		total := 0
 		for i := 0; i < nf; i++ {
 			b := scen.GenData(rng, "random", 1+rng.Intn(3*slice), slice)
+			if trial%4 == 3 && i == 0 {
+				b = scen.GenData(rng, "random", 16385+rng.Intn(4000), slice)
+			}
 			pth := filepath.Join(dir, fmt.Sprintf("all%d.bin", i))
 			os.WriteFile(pth, b, 0644)
 			paths = append(paths, pth)
